@@ -110,4 +110,42 @@ def effectiveMaxFlows (configured rlimit headroom : Nat) : Nat :=
 def clampMaxRx (configured bufferSize : Nat) : Nat :=
   if bufferSize = 0 then configured else min configured bufferSize
 
+/-! ### listener life cycle (UdpProxy::{add,activate,give_back,remove}_listener + the server's slab glue) -/
+
+/-- what decides whether a datagram arriving at the listener address reaches the manager -/
+structure Lst where
+  /-- `UdpProxy.listeners` holds the listener -/
+  inMap : Bool
+  /-- `UdpListener.socket` is `Some` and registered READABLE -/
+  socket : Bool
+  /-- the server's session slab holds an entry at the listener token -/
+  slabToken : Bool
+  /-- that entry is the `UdpListenerSession` (whose `update_readiness` runs `ingest_client`) -/
+  session : Bool
+deriving DecidableEq, Repr
+
+inductive LOp | add | activate | deactivate | remove
+deriving DecidableEq, Repr
+
+def Lst.none : Lst := { inMap := false, socket := false, slabToken := false, session := false }
+
+/-- One worker request. `keepToken`: `DeactivateListener` leaves a placeholder at the
+    listener token (the repair that is *not* applied: the real code removes the
+    slab entry, `keepToken = false`). `RemoveListener` takes and deregisters the
+    socket (commit 10f5475). -/
+def Lst.step (keepToken : Bool) (l : Lst) : LOp → Lst
+  | .add => if l.inMap then l else { inMap := true, socket := false, slabToken := true, session := false }
+  | .activate =>
+    -- `activate_listener` needs the map entry; `build_session` is installed only where the slab holds the token
+    if l.inMap then { l with socket := true, session := l.slabToken } else l
+  | .deactivate =>
+    -- `give_back_listener` needs an activated listener; the server then removes `slab[token]`
+    if l.inMap && l.socket then { l with socket := false, slabToken := keepToken, session := false } else l
+  | .remove => if l.inMap then { l with inMap := false, socket := false } else l
+
+def Lst.run (keepToken : Bool) (l : Lst) (ops : List LOp) : Lst := ops.foldl (Lst.step keepToken) l
+
+/-- a datagram sent to the listener address is handed to the manager -/
+def Lst.ingests (l : Lst) : Bool := l.socket && l.session
+
 end Sozu.Udp
